@@ -27,6 +27,14 @@ func init() {
 		fmt.Println("omode", ruleAdoptLeavesLazy(c, r))
 		fmt.Println("opair", ruleLazySampleCounted(c, r))
 		fmt.Println("sizechk", ruleSizeCheckEveryPath(c, r))
+		{
+			sc, _ := scopeFrom(c, entriesC16(c))
+			fmt.Println("codec optional fields", ruleGNILCodec(c, r, sc))
+		}
+		fmt.Println("size~enc", ruleSizeEncodeConditions(c, r, map[string]bool{"mp4": true}))
+		fmt.Println("filterbreak", ruleFilterBreak(c, r, nil))
+		fmt.Println("trunccopy", ruleTruncatingCopy(c, r, nil))
+		fmt.Println("bytesparams", ruleByteParamsReadOnly(c, r, byteParamWriters))
 		fmt.Println("rawdefault", ruleRawBeforeDefault(c, r, nil))
 		for _, o := range r.Obls {
 			if o.Status != Discharged || !strings.HasPrefix(o.Key, "L-SHAREDCHILD") && !strings.HasPrefix(o.Key, "L-PROGRESS") && !strings.HasPrefix(o.Key, "O-HDRFIRST") {
@@ -1931,6 +1939,346 @@ func ruleSegmenterOutputTrackID(c *Ctx, r *Report) int {
 					r.Undecided("DEP", key, c.Pos(call.Pos()), "the origin of the track id argument was not resolved: "+sliceNames(sl))
 				}
 			}
+		}
+	}
+	return n
+}
+
+// ---- R3-BYTES: byte-slice parameters are read-only except the listed in-place buffers ------------------------------
+
+// byteParamWriters: the (function, parameter) pairs of package mp4 that write into a []byte parameter by design.
+var byteParamWriters = map[string]string{
+	"mp4.CryptSampleCenc:sample":   "documented in-place encryption / decryption of the sample payload",
+	"mp4.cbcsCrypt:data":           "in-place block-mode pass over one protected range of the sample",
+	"mp4.cryptSampleCbcs:sample":   "in-place cbcs pass over the sample (hands its ranges to cbcsCrypt)",
+	"mp4.DecryptSampleCbcs:sample": "documented in-place cbcs decryption of the sample payload",
+	"mp4.EncryptSampleCbcs:sample": "documented in-place cbcs encryption of the sample payload",
+	"mp4.incrementIVInPlace:iv":    "named in-place helper; EncryptFragment calls it on its own copy of the IV",
+	"mp4.strtobuf:out":             "fills the caller's scratch buffer with a box type (unexported helper of the header writer)",
+}
+
+// ruleByteParamsReadOnly (R3-BYTES): a function of package mp4 writes the elements of a []byte parameter (element
+// store, copy into it, or handing it as destination to a cipher stream) only where the table lists the pair: keys,
+// IVs, KIDs and payloads handed in stay as the caller wrote them (the IV a caller passes to EncryptFragment is also the
+// one stored in the senc box of the first sample). Returns the number of writing pairs found.
+func ruleByteParamsReadOnly(c *Ctx, r *Report, allowed map[string]string) int {
+	n := 0
+	for _, f := range libFuncs(c, func(f *ssa.Function) bool { return strings.HasPrefix(SSAFuncName(f), "mp4.") }) {
+		isByteParam := func(v ssa.Value) *ssa.Parameter {
+			for i := 0; i < 4; i++ {
+				switch x := v.(type) {
+				case *ssa.Parameter:
+					if sl, ok := x.Type().Underlying().(*types.Slice); ok && sl.Elem().String() == "byte" {
+						return x
+					}
+					return nil
+				case *ssa.Slice:
+					v = x.X
+				case *ssa.IndexAddr:
+					v = x.X
+				default:
+					return nil
+				}
+			}
+			return nil
+		}
+		hits := map[string]token.Pos{}
+		for _, b := range f.Blocks {
+			for _, ins := range b.Instrs {
+				switch x := ins.(type) {
+				case *ssa.Store:
+					if ia, ok := x.Addr.(*ssa.IndexAddr); ok {
+						if p := isByteParam(ia.X); p != nil {
+							hits[p.Name()] = x.Pos()
+						}
+					}
+				case *ssa.Call:
+					if bi, ok := x.Call.Value.(*ssa.Builtin); ok && bi.Name() == "copy" && len(x.Call.Args) == 2 {
+						if p := isByteParam(x.Call.Args[0]); p != nil {
+							hits[p.Name()] = x.Pos()
+						}
+					}
+					if x.Call.IsInvoke() && (x.Call.Method.Name() == "XORKeyStream" || x.Call.Method.Name() == "CryptBlocks") && len(x.Call.Args) == 2 {
+						if p := isByteParam(x.Call.Args[0]); p != nil {
+							hits[p.Name()] = x.Pos()
+						}
+					}
+					// handing the parameter to a listed in-place writer writes it too
+					if h := x.Call.StaticCallee(); h != nil && len(h.Params) == len(x.Call.Args) {
+						for i, a := range x.Call.Args {
+							if _, listed := allowed[SSAFuncName(h)+":"+h.Params[i].Name()]; listed {
+								if p := isByteParam(a); p != nil {
+									hits[p.Name()] = x.Pos()
+								}
+							}
+						}
+					}
+				}
+			}
+		}
+		var names []string
+		for k := range hits {
+			names = append(names, k)
+		}
+		sort.Strings(names)
+		for _, pn := range names {
+			n++
+			key := SSAFuncName(f) + ":" + pn
+			if why, ok := allowed[key]; ok {
+				r.OK("R3-BYTES", key, c.Pos(hits[pn]), "accepted in-place buffer: "+why)
+			} else {
+				r.Bad("R3-BYTES", key, c.Pos(hits[pn]), fmt.Sprintf("the function writes into its []byte parameter %s, which is not a listed in-place buffer: the caller's bytes (a key, an IV that is also stored in the senc box, a payload shared with other goroutines) change under it", pn))
+			}
+		}
+	}
+	return n
+}
+
+// ---- L-FILTERBREAK: a filtering copy of a list does not stop at the first match -------------------------------
+
+// ruleFilterBreak (L-FILTERBREAK): where a function rebuilds a slice field from a local list that a loop fills with
+// append (a filtering copy: `for _, c := range x.Children { if drop(c) { … } else { kept = append(kept, c) } };
+// x.Children = kept`), the loop is not left by a break: everything after the element that triggers the break would be
+// missing from the rebuilt list. Returns the number of rebuilt fields.
+func ruleFilterBreak(c *Ctx, r *Report, scope func(*ssa.Function) bool) int {
+	n := 0
+	for _, f := range libFuncs(c, scope) {
+		loops := naturalLoops(f)
+		if len(loops) == 0 {
+			continue
+		}
+		for _, b := range f.Blocks {
+			for _, ins := range b.Instrs {
+				st, ok := ins.(*ssa.Store)
+				if !ok {
+					continue
+				}
+				fa, ok := st.Addr.(*ssa.FieldAddr)
+				if !ok {
+					continue
+				}
+				if _, isSl := st.Val.Type().Underlying().(*types.Slice); !isSl {
+					continue
+				}
+				// the stored value: a chain of phis and appends down to a make in this function
+				var appends []*ssa.Call
+				var mk *ssa.MakeSlice
+				seen := map[ssa.Value]bool{}
+				var walk func(v ssa.Value, d int)
+				walk = func(v ssa.Value, d int) {
+					if d > 8 || seen[v] {
+						return
+					}
+					seen[v] = true
+					switch x := v.(type) {
+					case *ssa.Phi:
+						for _, e := range x.Edges {
+							walk(e, d+1)
+						}
+					case *ssa.Call:
+						if bi, ok := x.Call.Value.(*ssa.Builtin); ok && bi.Name() == "append" {
+							appends = append(appends, x)
+							walk(x.Call.Args[0], d+1)
+						}
+					case *ssa.MakeSlice:
+						mk = x
+					}
+				}
+				walk(st.Val, 0)
+				if mk == nil || len(appends) == 0 {
+					continue
+				}
+				// the loop that appends, and does it read the same field?
+				var l *loopInfo
+				for _, lp := range loops {
+					if lp.blocks[appends[0].Block()] && (l == nil || len(lp.blocks) < len(l.blocks)) {
+						l = lp
+					}
+				}
+				if l == nil || l.blocks[st.Block()] {
+					continue
+				}
+				fv := fieldVar(fa.X.Type(), fa.Field)
+				readsSame := false
+				for _, b2 := range f.Blocks {
+					for _, i2 := range b2.Instrs {
+						if ld, ok := i2.(*ssa.UnOp); ok && ld.Op == token.MUL {
+							if fa2, ok := ld.X.(*ssa.FieldAddr); ok && fieldVar(fa2.X.Type(), fa2.Field) == fv && fv != nil {
+								readsSame = true
+							}
+						}
+					}
+				}
+				if !readsSame {
+					continue
+				}
+				n++
+				key := fmt.Sprintf("%s:%s.%s rebuilt", SSAFuncName(f), typeName(fa.X.Type()), fv.Name())
+				var brk *ssa.BasicBlock
+				reach := blockReach(f)
+				for blk := range l.blocks {
+					if blk == l.header {
+						continue
+					}
+					for _, s := range blk.Succs {
+						// an edge out of the loop body from which the replacing store is still reached: a break
+						if !l.blocks[s] && (s == st.Block() || reach[s][st.Block()]) {
+							brk = blk
+						}
+					}
+				}
+				if brk != nil {
+					r.Bad("L-FILTERBREAK", key, c.Pos(firstPos(brk)), "the loop that fills the new list is left by a break, and the field is then replaced by the new list: the elements after the one that triggers the break are dropped")
+				} else {
+					r.OK("L-FILTERBREAK", key, c.Pos(st.Pos()), "the loop that fills the new list runs over all elements")
+				}
+			}
+		}
+	}
+	return n
+}
+
+// ---- L-TRUNCCOPY: a caller's bytes are not squeezed into a fixed array -----------------------------------------
+
+// ruleTruncatingCopy (L-TRUNCCOPY): copy(arr[:], p) into a local fixed-size array from a slice that comes from a
+// parameter is preceded by a test of len(p): copy stops silently at the array's length, and what is built from the
+// array afterwards misses the tail (a decoder configuration longer than the "reserved room"). Returns the number of
+// such copies.
+func ruleTruncatingCopy(c *Ctx, r *Report, scope func(*ssa.Function) bool) int {
+	n := 0
+	for _, f := range libFuncs(c, scope) {
+		idx := 0
+		for _, b := range f.Blocks {
+			for _, ins := range b.Instrs {
+				call, ok := ins.(*ssa.Call)
+				if !ok {
+					continue
+				}
+				bi, ok := call.Call.Value.(*ssa.Builtin)
+				if !ok || bi.Name() != "copy" || len(call.Call.Args) != 2 {
+					continue
+				}
+				dst, ok := call.Call.Args[0].(*ssa.Slice)
+				if !ok {
+					continue
+				}
+				al, ok := dst.X.(*ssa.Alloc)
+				if !ok {
+					continue
+				}
+				at, ok := al.Type().Underlying().(*types.Pointer).Elem().Underlying().(*types.Array)
+				if !ok {
+					continue
+				}
+				src := call.Call.Args[1]
+				fromParam := false
+				for v, i := src, 0; i < 4; i++ {
+					if _, isP := v.(*ssa.Parameter); isP {
+						fromParam = true
+						break
+					}
+					if sl, ok := v.(*ssa.Slice); ok {
+						v = sl.X
+						continue
+					}
+					break
+				}
+				if !fromParam {
+					continue
+				}
+				if _, isStr := src.Type().Underlying().(*types.Basic); isStr {
+					continue
+				}
+				n++
+				idx++
+				key := fmt.Sprintf("%s:copy-into-[%d]array#%d", SSAFuncName(f), at.Len(), idx)
+				tested := hasDominatingTest(src, b, func(cond ssa.Value, truth bool) bool {
+					bo, ok := cond.(*ssa.BinOp)
+					if !ok {
+						return false
+					}
+					for _, o := range []ssa.Value{bo.X, bo.Y} {
+						if lc, ok := stripConv(o).(*ssa.Call); ok {
+							if lb, ok := lc.Call.Value.(*ssa.Builtin); ok && lb.Name() == "len" && sameSSA(lc.Call.Args[0], src) {
+								return true
+							}
+						}
+					}
+					return false
+				})
+				if tested {
+					r.OK("L-TRUNCCOPY", key, c.Pos(call.Pos()), "the length of the source is tested before the copy")
+				} else {
+					r.Bad("L-TRUNCCOPY", key, c.Pos(call.Pos()), fmt.Sprintf("a slice that comes from a parameter is copied into a %d-byte array with no test of its length: anything longer is cut off silently", at.Len()))
+				}
+			}
+		}
+	}
+	return n
+}
+
+// ---- S-COND (Size ~ EncodeSW): the same field is tested the same way in both -----------------------------------
+
+// ruleSizeEncodeConditions (S-COND, Size~EncodeSW): for a box type with Size() and EncodeSW, a receiver field that both
+// functions compare with constants is compared with the same constants in the same way (up to negation) in both:
+// `Version >= 1` in Size() against `Version == 1` in EncodeSW counts bytes for version 2 that are never written.
+// Fields only one of the two tests are not judged. Returns the number of types with a commonly tested field.
+func ruleSizeEncodeConditions(c *Ctx, r *Report, pkgs map[string]bool) int {
+	n := 0
+	byType := map[string]map[string]*ssa.Function{}
+	for _, f := range c.RepoFuncs(IsLib) {
+		if f.Synthetic != "" || f.Signature.Recv() == nil || f.Pkg == nil || !pkgs[f.Pkg.Pkg.Name()] || f.Parent() != nil {
+			continue
+		}
+		tn := f.Pkg.Pkg.Name() + "." + typeName(f.Signature.Recv().Type())
+		if byType[tn] == nil {
+			byType[tn] = map[string]*ssa.Function{}
+		}
+		byType[tn][f.Name()] = f
+	}
+	var names []string
+	for tn := range byType {
+		names = append(names, tn)
+	}
+	sort.Strings(names)
+	fieldOf := func(sig string) string { return strings.SplitN(sig, " ", 2)[0] }
+	for _, tn := range names {
+		size, enc := byType[tn]["Size"], byType[tn]["EncodeSW"]
+		if size == nil || enc == nil {
+			continue
+		}
+		a, b := condSignatures(size), condSignatures(enc)
+		fa, fb := map[string][]string{}, map[string][]string{}
+		for k := range a {
+			fa[fieldOf(k)] = append(fa[fieldOf(k)], k)
+		}
+		for k := range b {
+			fb[fieldOf(k)] = append(fb[fieldOf(k)], k)
+		}
+		var common []string
+		for fld := range fa {
+			if _, ok := fb[fld]; ok {
+				common = append(common, fld)
+			}
+		}
+		if len(common) == 0 {
+			continue
+		}
+		sort.Strings(common)
+		n++
+		key := tn + ":Size~EncodeSW"
+		var diff []string
+		for _, fld := range common {
+			sort.Strings(fa[fld])
+			sort.Strings(fb[fld])
+			if strings.Join(fa[fld], ";") != strings.Join(fb[fld], ";") {
+				diff = append(diff, fmt.Sprintf("Size tests {%s}, EncodeSW tests {%s}", strings.Join(fa[fld], "; "), strings.Join(fb[fld], "; ")))
+			}
+		}
+		if len(diff) > 0 {
+			r.Bad("S-COND", key, c.Pos(enc.Pos()), "Size() and EncodeSW test the same field differently: "+strings.Join(diff, " | "))
+		} else {
+			r.OK("S-COND", key, c.Pos(enc.Pos()), fmt.Sprintf("the %d commonly tested fields are tested alike", len(common)))
 		}
 	}
 	return n
